@@ -227,6 +227,10 @@ class LoopInterp(Interp):
                 return Tup([Sc(Poly.sym("n")), Sc(Poly.sym("n"))])
             if name in ("to_owned", "clone") and a0.view:
                 return ArrV(a0.name)           # a copy of the viewed elements: an array of its own
+            if name == "clone" and len(args) == 1:
+                self.n_arrays += 1
+                self.events.append((tuple(self.frames), "new-array", "new%d" % self.n_arrays, "copy:" + a0.name))
+                return ArrV("new%d" % self.n_arrays, init=("copy", a0.name))
             if name == "diag":
                 v = ArrV("%s.diag" % a0.name)
                 v.view = ("diag", a0.name)
@@ -1102,6 +1106,7 @@ def jacobi(chk, F, body):
     chk.ob("loops|jacobi|sort", not sort_bad and n_sw > 0, "the final sort exchanges an eigenvector column whenever (and only when) it exchanges "
            "the corresponding eigenvalue", body_loc(F, body), found=sorted(set(sort_bad))[:3] or "%d paths with consistent exchanges" % n_sw)
     jacobi_control(chk, F, body, paths, P, Q)
+    jacobi_per_path(chk, F, body, paths, P, Q, accs)
     # ascending order: an exchange of d_m (m from the inner search loop) with d_k happens only under d_m < d_k
     inv = {}
     for pp in paths:
@@ -1497,3 +1502,67 @@ def has_neg_power(p, atom):
             if a[0] == "f" and has_neg_power(a[2], atom):
                 return True
     return False
+
+
+def jacobi_per_path(chk, F, body, paths, P, Q, accs):
+    """per rotation path: a_pq is annihilated on THAT path; the sign of t follows the sign of theta; per sweep: the accumulator is added to
+    the backup copy of the diagonal, the diagonal is restored from it and the accumulator is reset to zero"""
+    from .common import _poly_from_key_cache as cache
+    loc = body_loc(F, body)
+    apq = A("A", P, Q)
+    theta = (A("D", Q) - A("D", P)) * Fr(1, 2) * apq.recip()
+    root = (theta * theta + 1).pow(E(Fr(1, 2)))
+    mag = (apply_fn("abs", theta) + root).recip()
+    bad_zero, bad_sign, n_rot, n_signed = [], [], 0, 0
+    inv = {}
+    for pp in paths:
+        for nm, role in pp["roles"].items():
+            inv[nm] = role
+
+    def ren(p):
+        return p.subst(lambda a: Poly.atom(("v", inv[a[1]], a[2])) if a[0] == "v" and a[1] in inv else None)
+    for pp in paths:
+        dup = [u for u in pp["updates"] if u["arr"] == "D" and u["idx"] == (P,) and len(u["frames"]) == 3]
+        if not dup:
+            continue
+        n_rot += 1
+        if not any(u["arr"] == "A" and u["idx"] == (P, Q) and len(u["frames"]) == 3 and u["rhs"].is_zero_syntactic() for u in pp["updates"]):
+            bad_zero.append(path_descr(pp["ctx"])[:120])
+        t = (A("D", P) - dup[0]["rhs"]) * apq.recip()
+        for (key, d, b, f) in pp["ctx"].trace:
+            if key[0] == "pred" and key[1] in ("is_negative", "is_positive", "is_sign_negative", "is_sign_positive"):
+                pk = cache.get(key[2])
+                if pk is None or not equal(ren(pk), theta):
+                    continue
+                neg = b if key[1] in ("is_negative", "is_sign_negative") else (not b)
+                n_signed += 1
+                if not equal(t, -mag if neg else mag):
+                    bad_sign.append("theta %s: t = %s" % ("negative" if neg else "non-negative", t.show()[:100]))
+    if n_rot:
+        chk.ob("loops|jacobi|annihilated-per-path", not bad_zero, "every rotation path sets the rotated element a_pq to zero", loc,
+               found=sorted(set(bad_zero))[:2] or "%d rotation paths" % n_rot)
+        if n_signed:
+            chk.ob("loops|jacobi|t-sign", not bad_sign, "t = sgn(theta) / (|theta| + sqrt(theta^2 + 1)): negative exactly when theta is negative", loc,
+                   found=sorted(set(bad_sign))[:2] or "%d paths with a decided sign" % n_signed)
+    # ---- sweep epilogue (whole-array operations recorded as events)
+    evs = []
+    for pp in paths:
+        for e in pp["events"]:
+            if e not in evs:
+                evs.append(e)
+    copies = {e[2]: e[3][5:] for e in evs if e[1] == "new-array" and str(e[3]).startswith("copy:")}
+    dname = [nm for nm, role in inv.items() if role == "D"]
+    fills = [e for e in evs if e[1] == "fill" and len(e[0]) == 1]
+    adds = [e for e in evs if e[1] == "assignop+=" and len(e[0]) == 1]
+    assigns = [e for e in evs if e[1] == "assign" and len(e[0]) == 1]
+    if not (fills and adds and assigns and dname and accs):
+        chk.undecide("loops|jacobi|sweep-epilogue", "unsupported: the end of a sweep is not the recognised add / restore / reset of whole arrays", loc)
+        return
+    z = accs[0]
+    ok_add = any(copies.get(e[2]) == dname[0] and e[3] == "Arr(%s)" % z for e in adds)
+    ok_assign = any(e[2] == dname[0] and copies.get(e[3][4:-1]) == dname[0] for e in assigns)
+    ok_fill = any(e[2] == z and e[3] == "Sc(0)" for e in fills)
+    chk.ob("loops|jacobi|sweep-epilogue", ok_add and ok_assign and ok_fill, "at the end of a sweep the accumulated corrections are added to the "
+           "backup copy of the diagonal, the diagonal is restored from it, and the accumulator is reset to ZERO", loc,
+           found="add: %s, restore: %s, reset: %s" % ([e[1:] for e in adds][:2], [e[1:] for e in assigns][:2], [e[1:] for e in fills][:2]),
+           required="backup += accumulator; d.assign(backup); accumulator.fill(0)")
